@@ -10,6 +10,8 @@ META = {
 }
 
 META["explanation"] += " " + 'Also: destroy tears down synchronously only for tables without AUTO_RESIZE worker (dominating guard with no further condition), deferred teardown frees the table last, emptiness walks classify every loaded next word, the EAGAIN fallback of the partitioned shrink covers the rest of the level.'
+META["explanation"] += " " + "Also (rounds 10-11): per-thread read-side sections of the resize partitions, no table access while the thread is offline, the work queue's worker-visible fields are initialised before the worker exists."
+
 RULES = [
     ("C07.del", lambda c, r: lfht.rule_del(c, r, "C07.del")),
     ("C07.bits", lambda c, r: lfht.rule_bits(c, r, "C07.bits")),
